@@ -29,6 +29,9 @@ pub struct Case {
     /// run through the real FollowFileExecutor in a child process (its own seek and 8 KiB reader) instead of the bare iterator
     #[serde(default)]
     pub exec_level: bool,
+    /// a long pause of the writer: before segment .0 is appended the reader polls .1 times in vain (in the middle of a line, too)
+    #[serde(default)]
+    pub long_idle: Option<(usize, u16)>,
 }
 
 pub struct C10;
@@ -64,7 +67,7 @@ struct Script {
     segments: Vec<Vec<u8>>,
     next: usize,
     idle: Vec<u8>,
-    idle_done: u8,
+    idle_done: u32,
     callbacks: u64,
 }
 
@@ -87,6 +90,7 @@ pub fn run_iterator(case: &Case, ctx: &Ctx) -> Result<Vec<String>, String> {
     let segments: Vec<Vec<u8>> = (pre..nseg).map(|i| bytes[b[i]..b[i + 1]].to_vec()).collect();
     let script = Rc::new(RefCell::new(Script { file: writer, segments, next: 0, idle: case.idle.clone(), idle_done: 0, callbacks: 0 }));
     let s2 = script.clone();
+    let long_idle = case.long_idle;
     sqlgrep::verif_hooks::set_follow_idle(Some(Box::new(move || {
         let mut s = s2.borrow_mut();
         s.callbacks += 1;
@@ -95,14 +99,14 @@ pub fn run_iterator(case: &Case, ctx: &Ctx) -> Result<Vec<String>, String> {
         }
         if s.next >= s.segments.len() {
             // one more idle round after the last append, then the script is exhausted
-            let want = s.idle.get(s.next).copied().unwrap_or(0).min(3);
+            let want = match long_idle { Some((seg, n)) if seg == s.next => n as u32, _ => s.idle.get(s.next).copied().unwrap_or(0).min(3) as u32 };
             if s.idle_done < want {
                 s.idle_done += 1;
                 return false;
             }
             return true;
         }
-        let want = s.idle.get(s.next).copied().unwrap_or(0).min(3);
+        let want = match long_idle { Some((seg, n)) if seg == s.next => n as u32, _ => s.idle.get(s.next).copied().unwrap_or(0).min(3) as u32 };
         if s.idle_done < want {
             s.idle_done += 1;
             return false;
@@ -299,7 +303,7 @@ impl Property for C10 {
             _ => 0,
         };
         let exec_level = t.chance(1, 40);
-        let mut case = Case { content, polls, idle: Vec::new(), pre: 0, head, capacity: if big { *t.pick(&[16usize, 8192, 8192, 65536, 100_000]) } else { *t.pick(&CAPACITIES) }, exec_level };
+        let mut case = Case { long_idle: None, content, polls, idle: Vec::new(), pre: 0, head, capacity: if big { *t.pick(&[16usize, 8192, 8192, 65536, 100_000]) } else { *t.pick(&CAPACITIES) }, exec_level };
         if !head {
             // the start position must be a character boundary (the content before it is not read)
             let b = boundaries(&case);
@@ -309,6 +313,10 @@ impl Property for C10 {
         }
         case.pre = pre;
         case.idle = (0..nseg + 1).map(|_| if t.chance(1, 4) { 1 + t.draw(2) as u8 } else { 0 }).collect();
+        // one case in thirty: the writer pauses for a thousand or two polls before one of the appends (index among the appends after start-up)
+        if !case.exec_level && t.chance(1, 30) {
+            case.long_idle = Some((t.draw(nseg + 1), *t.pick(&[1000u16, 1023, 1024, 1025, 2048, 2100, 4100])));
+        }
         case
     }
 
@@ -338,7 +346,7 @@ impl Property for C10 {
             }
         }
         // without --head everything is appended after start-up (pre = 0): same expectation, other seek path
-        Some(Case { content, polls, idle: Vec::new(), pre: 0, head, capacity, exec_level: false })
+        Some(Case { content, polls, idle: Vec::new(), pre: 0, head, capacity, exec_level: false, long_idle: None })
     }
 
     fn enum_description(&self) -> Option<String> {
